@@ -1011,6 +1011,18 @@ func (w *c07World) do(o *c07Out, s c07Stim) c07Obs {
 			}
 		}
 	}
+	if after.htc != before.htc && s.Op != "htc" {
+		msg := string(hotstuff.View(after.htc).ToBytes())
+		cnt := 0
+		for i := 1; i <= w.u.n; i++ {
+			if w.held[c07Contrib{i, msg}] {
+				cnt++
+			}
+		}
+		v.Oracle(cnt >= w.u.q, "hightc-not-backed:"+w.culprit(),
+			fmt.Sprintf("high TC view became %d although the replica holds only %d of the %d distinct genuine timeout signatures for that view", after.htc, cnt, w.u.q), meta)
+		v.Count("high-tc-moved")
+	}
 	if (after.hqHash != before.hqHash || after.hqView != before.hqView) && s.Op != "hqc" {
 		hq := w.vs.HighQC()
 		b, have := w.chain.LocalGet(hq.BlockHash())
